@@ -26,6 +26,7 @@ import numpy
 from core import Result, call
 from corr.c03 import dump_residues, index_map, load_residues, parse_verdict
 from gen import g3pairs as G
+from corr import cli_annotator
 
 
 def rkey(res):
@@ -364,6 +365,9 @@ def run(ctx):
     for (tag, rs, m) in inputs[:3] + inputs[-2:]:
         res.sample({"family": tag, "model": m if m != "multi" else "two models", "residues": len(rs)})
     __import__("corr.fn_common", fromlist=["run_fn"]).run_fn(ctx, res, "C11")  # regenerated functions vs the real ones (tools/py2lean.py)
+    # the command-line tool as an observation point: what annotator.main writes for a file and a set of options is what
+    # the library computes for that file (harness/corr/cli_annotator.py)
+    cli_annotator.judge(res, "C11", cli_annotator.evaluate(ctx))
     return res
 
 
@@ -502,6 +506,8 @@ def replay(ctx, data):
         for c in data.get("correspondence", [])[:1]:
             replay(ctx, {"input": c["input"], "signature": c["signature"]})
         return
+    if cli_annotator.is_cli(data["input"]):
+        return cli_annotator.replay_cli("C11", data["input"])
     inp = data["input"]
     if "rows" in inp:
         from rnapolis.annotator import merge_and_clean_bph_br
